@@ -160,8 +160,14 @@ def run_shard(rec, tier, seed, shard, nshards):
                 rec.case(("asm", n, n_chunks, tuple(int(x) for x in order)), nontrivial=n >= 2)
                 try:
                     mats = [DC.ChunkedDistanceMatrix.load(files[int(c)]) for c in order]
+                    snap = [(m_.current_index, kit.raw_bytes(m_.row_indices[: m_.current_index]), kit.raw_bytes(m_.col_indices[: m_.current_index]), kit.raw_bytes(m_.values[: m_.current_index])) for m_ in mats]
                     comb = DC.ChunkedDistanceMatrix.concat(mats)
                     dense = comb.to_dense()
+                    if len(mats) > 1:
+                        after = [(m_.current_index, kit.raw_bytes(m_.row_indices[: m_.current_index]), kit.raw_bytes(m_.col_indices[: m_.current_index]), kit.raw_bytes(m_.values[: m_.current_index])) for m_ in mats]
+                        rec.check(after == snap, "C07/assembly/input-chunk-changed", "combining chunks changed one of the input chunks", dict(w, order=[int(x) for x in order]))
+                        again = DC.ChunkedDistanceMatrix.concat(mats).to_dense()
+                        rec.check(kit.bytes_equal(again, dense), "C07/assembly/not-repeatable", "combining the same chunk objects a second time gives another matrix", dict(w, order=[int(x) for x in order]))
                 except Exception as e:
                     rec.violation("C07/assembly/concat-raises", "concat/to_dense raised %r for order %r (n=%d,n_chunks=%d)" % (e, order, n, n_chunks), dict(w, order=[int(x) for x in order]))
                     continue
